@@ -117,7 +117,7 @@ where
             let case = to_json(&minimal);
             let (signature, what) = out
                 .verdict
-                .unwrap_or_else(|| ("unstable".into(), "minimal case passed on re-evaluation".into()));
+                .unwrap_or_else(|| ("harness:unstable".into(), "minimal case passed on re-evaluation (non-deterministic failure, e.g. CPU-time watchdog under load)".into()));
             let to = case.to_string().len() as u64;
             Some(Failure {
                 signature,
